@@ -112,6 +112,62 @@ theorem trunc_grows (x : F32) (hn : Normal x) (h12 : 12 ≤ x.e) :
     omega
   omega
 
+/-- one step at most doubles the value: `leafSize * 1.2`, rounded, stays ≤ `2 · leafSize`
+    (so the loop, which returns once `int(leafSize) ≥ len(entries)`, never hands `int()` a value
+    beyond twice the entry count: far inside int64 and far from float32 overflow) -/
+theorem mul12_le_double (x : F32) (hn : Normal x) : val11 (mul12 x) ≤ 2 * val11 x := by
+  obtain ⟨hlo, hhi⟩ := hn
+  have hsucc : x.e + 1 - 12 ≤ (x.e - 12) + 1 := by omega
+  have hpow1 : 2 ^ (x.e + 1 - 12) ≤ 2 * 2 ^ (x.e - 12) := by
+    calc 2 ^ (x.e + 1 - 12) ≤ 2 ^ ((x.e - 12) + 1) := Nat.pow_le_pow_right (by decide) hsucc
+      _ = 2 * 2 ^ (x.e - 12) := by rw [Nat.pow_succ, Nat.mul_comm]
+  have hpow2 : 2 ^ (x.e + 1 + 1 - 12) ≤ 4 * 2 ^ (x.e - 12) := by
+    have : x.e + 1 + 1 - 12 ≤ (x.e - 12) + 2 := by omega
+    calc 2 ^ (x.e + 1 + 1 - 12) ≤ 2 ^ ((x.e - 12) + 2) := Nat.pow_le_pow_right (by decide) this
+      _ = 4 * 2 ^ (x.e - 12) := by rw [Nat.pow_add, Nat.mul_comm]
+  unfold mul12 C12
+  simp only
+  split
+  · rename_i hp
+    have hle := rneShift_le (x.m * 10066330) 23
+    have h23 : (2:Nat) ^ 23 = 8388608 := by decide
+    rw [h23] at hle
+    generalize rneShift (x.m * 10066330) 23 = r at hle
+    unfold norm
+    split
+    · rename_i hr
+      simp only [val11]
+      -- r = 2^24 ≤ 1.2 m + 1, value 2^23 · 2^(e+1-12) ≤ 2^24 · 2^(e-12) ≤ 2 m · 2^(e-12)
+      calc 8388608 * 2 ^ (x.e + 1 - 12) ≤ 8388608 * (2 * 2 ^ (x.e - 12)) := Nat.mul_le_mul_left _ hpow1
+        _ = 16777216 * 2 ^ (x.e - 12) := by omega
+        _ ≤ (2 * x.m) * 2 ^ (x.e - 12) := Nat.mul_le_mul_right _ (by omega)
+        _ = 2 * (x.m * 2 ^ (x.e - 12)) := by rw [Nat.mul_assoc]
+    · simp only [val11]
+      calc r * 2 ^ (x.e - 12) ≤ (2 * x.m) * 2 ^ (x.e - 12) := Nat.mul_le_mul_right _ (by omega)
+        _ = 2 * (x.m * 2 ^ (x.e - 12)) := by rw [Nat.mul_assoc]
+  · rename_i hp
+    have hle := rneShift_le (x.m * 10066330) 24
+    have h24 : (2:Nat) ^ 24 = 16777216 := by decide
+    rw [h24] at hle
+    generalize rneShift (x.m * 10066330) 24 = r at hle
+    unfold norm
+    split
+    · rename_i hr
+      -- impossible: r ≤ m·C/2^24 + 1 < 2^24
+      omega
+    · simp only [val11]
+      calc r * 2 ^ (x.e + 1 - 12) ≤ r * (2 * 2 ^ (x.e - 12)) := Nat.mul_le_mul_left _ hpow1
+        _ = (2 * r) * 2 ^ (x.e - 12) := by rw [← Nat.mul_assoc, Nat.mul_comm r 2]
+        _ ≤ (2 * x.m) * 2 ^ (x.e - 12) := Nat.mul_le_mul_right _ (by omega)
+        _ = 2 * (x.m * 2 ^ (x.e - 12)) := by rw [Nat.mul_assoc]
+
+theorem trunc_le_double (x : F32) (hn : Normal x) (h12 : 12 ≤ x.e) :
+    trunc (mul12 x) ≤ 2 * trunc x + 1 := by
+  obtain ⟨_, he, _⟩ := mul12_step x hn h12
+  have := mul12_le_double x hn
+  rw [trunc_eq x h12, trunc_eq (mul12 x) (by omega)]
+  omega
+
 theorem optimizeLoopF_terminates (ser : List Entry → Bytes) (budget : Nat) (es : List Entry)
     (hsmall : ∀ l : List Entry, l.length ≤ 1 → (ser l).length ≤ budget) :
     ∀ fuel x, Normal x → 12 ≤ x.e → 1 ≤ fuel → es.length < fuel + trunc x →
@@ -155,5 +211,40 @@ theorem optimizeLoopF_result (ser : List Entry → Bytes) (budget : Nat) (es : L
       simp only [val11]; omega
     · obtain ⟨_, g2, g3⟩ := trunc_grows x hn h12
       exact ih (mul12 x) b g2 g3 h
+
+/-- every leaf size the loop ever tries is at most the first one or twice the entry count: the
+    conversions `int(leafSize)` stay far inside int64, the float32 far from overflow -/
+theorem triedF_bounded (ser : List Entry → Bytes) (budget : Nat) (es : List Entry)
+    (hsmall : ∀ l : List Entry, l.length ≤ 1 → (ser l).length ≤ budget) :
+    ∀ fuel x, Normal x → 12 ≤ x.e → ∀ t ∈ triedF ser budget es fuel x, t ≤ max (trunc x) (2 * es.length) := by
+  intro fuel
+  induction fuel with
+  | zero => intro x _ _ t ht; simp [triedF] at ht
+  | succ f ih =>
+    intro x hn h12 t ht
+    simp only [triedF] at ht
+    split at ht
+    · simp only [List.mem_singleton] at ht
+      subst ht; exact Nat.le_max_left _ _
+    · rename_i hnot
+      have hlt : trunc x < es.length := by
+        by_cases hc : es.length ≤ trunc x
+        · exfalso
+          apply hnot
+          have := build_big_root ser es (trunc x) hc
+          have hr : (buildRootsLeaves ser es (trunc x)).rootBytes = ser (buildRootsLeaves ser es (trunc x)).rootEntries := rfl
+          rw [hr]
+          exact hsmall _ this
+        · omega
+      rcases List.mem_cons.mp ht with h | h
+      · subst h; exact Nat.le_max_left _ _
+      · obtain ⟨_, g2, g3⟩ := trunc_grows x hn h12
+        have := ih (mul12 x) g2 g3 t h
+        have hd := trunc_le_double x hn h12
+        have : t ≤ 2 * es.length := by
+          rcases Nat.le_total (trunc (mul12 x)) (2 * es.length) with hm | hm
+          · rw [Nat.max_eq_right hm] at this; exact this
+          · omega
+        exact Nat.le_trans this (Nat.le_max_right _ _)
 
 end Pm.F32
